@@ -220,6 +220,22 @@ PROPS['C10'] = dict(
          'monitor, not as one theorem over whole executions. Trusted: Coq kernel, model, extraction, harness with its virtual '
          'embassy time driver. No axioms. Known finding K10 (keep-alive < 5 s) is reported as KNOWN-FINDING.')
 
+PROPS['C01'] = dict(
+    sess=[('py_c01', 300, 5000), ('sess_c01', 300, 6000), ('sweep_c01', 200, 5000), ('sess_base', 100, 3000)],
+    events='wf', state=['ret', 'ctl', 'rel', 'conn', 'live', 'cp'],
+    monitors=[M.mon_c01, M.mon_panic],
+    title='the outbound byte stream is whole, well-formed MQTT 5 packets',
+    claim='Proved in Coq for all inputs: every encoder (CONNECT, PUBLISH, SUBSCRIBE, UNSUBSCRIBE, DISCONNECT, PUBACK/PUBREC/PUBCOMP, '
+          'PUBREL, PINGREQ) returns exactly one control packet (first byte, canonical Remaining Length, exactly that many bytes) whose '
+          'first byte is one MQTT 5 allows a client to send; any concatenation of such packets is framed back into exactly those '
+          'packets; the engine hands write() the unwritten rest of one entry from its recorded offset and begins a fresh entry only '
+          'when no entry is in progress. Over whole executions (1-byte partial writes, a fault or a drop at every await point, '
+          'inbound traffic, reconnects) the model is compared with the code byte for byte and every transport\'s stream is parsed '
+          'by an independent strict MQTT 5 decoder that also checks ownership of any partial packet left on the wire.',
+    note='Partial: the packet-level and engine-level statements are theorems; the statement over all schedules is carried by the '
+         'correspondence and the wire monitor (three known findings K01a/K01b/K01c show the full statement is false of this code). '
+         'Trusted: Coq kernel, model, Spec.v, extraction, harness, Python decoder. No axioms.')
+
 TRUSTED_BASE = [
     'Coq 8.16.1 kernel and its bytecode VM (vm_compute); native_compute is not used',
     'axioms: none (every property theorem is reported "Closed under the global context" by Print Assumptions)',
